@@ -27,7 +27,11 @@ RULE = ("one run = one session set between blob-exchange peers on simulated TCP.
         "structural bytes), latencies below the timeouts. family `hostile_server`: real client against a scripted "
         "server applying one misbehaviour of a 28-entry catalogue at a seeded message position, then an honest "
         "transfer. family `hostile_client`: real server against a scripted client (15-entry catalogue) while honest "
-        "clients are served concurrently and afterwards. A wire monitor parses everything real servers write. "
+        "clients are served concurrently and afterwards. family `race` (9 %): ONE client fetches ONE blob from an honest "
+        "server and from a second peer at once over two connections - the second peer honest too (neck and neck), a "
+        "liar that speaks once the honest header is in, or (`pin` mode) a liar that speaks first with a wrong length "
+        "and is dropped while the honest writer is open, judged by a follow-up honest request. Whenever a blob is "
+        "verified its length must be an int equal to the bytes on disk. A wire monitor parses everything real servers write. "
         "Non-trivial = at least one transfer attempted over a re-chunked stream or one misbehaviour fired; "
         "distinct = distinct event-trace digest.")
 COMPONENTS = {
